@@ -167,6 +167,21 @@ def run(ctx):
             tid += 1
             trs.append({"tid": tid, "seq": list(a), "ev": [{"q": "userreduce", "isdict": False, "ua": {"A": "A"}, "kind": "non-dict",
                                                            "exc": out[0] != "ok", "rs": [], "alphabet": []}]})
+    # a value must be ONE amino-acid letter: every two-letter word over the residues (a sample in the quick tier) and some longer
+    # words (group labels such as 'ST', 'RHK', 'AILM' look harmless)
+    words = [a + b for a in common.AA for b in common.AA]
+    if ctx.quick:
+        words = ctx.rng.sample(words, 140)
+    words += ["RHK", "STNQ", "AILM", "FWY", "DE ", " D", "D\n", "KR,", "ACD", "LIV", "ILV", "YWF"]
+    probe = "ACDEFGHIKLMNPQRSTVWY"
+    for wv in words:
+        ua = {a: a for a in common.AA}
+        ua[ctx.rng.choice(common.AA)] = wv
+        out = reduce_call(lc.SP(probe), ua=ua)
+        ctx.evaluations += 1
+        tid += 1
+        trs.append({"tid": tid, "seq": list(probe), "ev": [{"q": "userreduce", "isdict": True, "ua": ua_json(ua), "kind": "value-word", "exc": out[0] != "ok",
+                                                           "rs": list(out[1]) if out[0] == "ok" else [], "alphabet": out[2] if out[0] == "ok" else []}]})
     verdicts, _ = traces.validate(ctx, "Trace_Queries", trs, {"sqrt": [], "ent": []})
     for tr in trs:
         v = verdicts[tr["tid"]]
